@@ -37,6 +37,8 @@ type X2Config struct {
 	Initial      *store.PersistedData
 	Restart      bool     // C10: save + restart check at every new state
 	Prefix       []XEvent // the search starts from the state this history leads to (Depth counts the events after it)
+	Store        bool     // run with a store (and hence the persist loop) although Save is not in the alphabet
+	AdvAlways    bool     // clock steps are offered in every state
 	logDir       string
 }
 
@@ -49,7 +51,7 @@ func (c *X2Config) opts() WorldOpts {
 			defs = append(defs, mkDefs(map[string]PipeCfg{"p": pc}))
 		}
 	}
-	o := WorldOpts{Defs: defs, WithStore: c.Save || c.Restart, Initial: c.Initial}
+	o := WorldOpts{Defs: defs, WithStore: c.Save || c.Restart || c.Store, Initial: c.Initial}
 	if c.LogDir {
 		dir, err := os.MkdirTemp("", "verif-logs-")
 		if err != nil {
@@ -102,7 +104,7 @@ func (c *X2Config) events(w *World) []XEvent {
 	for _, rs := range parked {
 		evs = append(evs, XEvent{Kind: "Dok", Job: w.Mocks[rs.inst-1].job, Task: rs.task})
 	}
-	advMatters := len(w.S.PendingTimers()) > 0
+	advMatters := len(w.S.PendingTimers()) > 0 || c.AdvAlways
 	if !advMatters && d.Defs != nil {
 		// time also matters without a pending timer: a finished job that has not yet outlived its retention period
 		now := w.S.Elapsed()
@@ -392,6 +394,9 @@ func (c *X2Config) check(w *World, pre, post *Dump, ev XEvent, preLen int, liste
 	}
 	if c.Props["C15"] {
 		vs = append(vs, monC15(f, pre, post, ev, w.Log[preLen:], listed)...)
+	}
+	if c.Props["C11persist"] {
+		vs = append(vs, monPersistInterval(w, f, w.S.Elapsed())...)
 	}
 	if c.Props["C16"] {
 		vs = append(vs, monC16(w, f)...)
